@@ -239,13 +239,6 @@ def run_batch(ctx, audit, strings, hows, safety, bi):
                     tag = None
                     # defect model "a literal with an unescaped ? or * is passed through the wildcard->regexp conversion"
                     import re as _re
-                    if how != 'const' and _re.search(r'(?<![~])[?*]', s) and '"' not in s and out.ok:
-                        try:
-                            pred = exp.replace(s, ld.value._regexp(s))
-                        except Exception:
-                            pred = None
-                        if pred is not None and out.value == pred:
-                            tag = 'KF-C07-wildcard-literal-evaluates-to-regexp'
                     report(r, ID, tag, case, out.brief(), exp, monitor='round-trip')
     return
 
